@@ -322,6 +322,33 @@ func c02cases(quick bool) []*BCase {
 		cfg.Decorators = e.decs
 		add("error/"+e.id, cfg, false)
 	}
+	// the same texts under alias tables that denote other packages, built one after the other in one process: every text
+	// means what ITS configuration's table says
+	for ri, imports := range [][]KV{{{"pk", "fx/pk"}, {"pk2", "fx/pk2"}}, {{"pk", "fx/pk2"}, {"pk2", "fx/pk"}}, {{"pk", "fx/ab"}, {"pk2", "fx/a/pkg"}}, {{"pk", "fx/pk"}, {"pk2", "fx/pk2"}}} {
+		cfg := &Cfg{Meta: &Meta{Imports: imports, Functions: []KV{{"fnStr", "pk.FnStr"}, {"fnInt", "pk2.FnInt"}}},
+			Params: []Param{{"pInt", 7}, {"pStr", "v"}, {"pf", `%fnStr("a")%-%fnInt()%`}}}
+		cfg.Services = []Service{
+			{Name: "dep", Constructor: P("pk.New"), Args: []any{"dep-arg"}},
+			{Name: "sut", Constructor: P("pk2.New1"), Args: []any{"!value pk.Var", "!value &pk2.Obj{}", "@dep", "%pf%"}, Fields: []KV{{"F1", "!value pk2.Const"}},
+				Calls: []Call{{Method: "Set1", Args: []any{"!value pk.VarVal"}}, {Method: "With1", Args: []any{"!value pk.Const"}, Immutable: P(true)}}, Tags: []Tag{{Name: "dtag"}}},
+			{Name: "val", Value: P("pk.Obj{}"), Type: P("pk.Obj"), Getter: P("GetVal")},
+		}
+		cfg.Decorators = []Decorator{{Tag: "dtag", Decorator: "pk2.Dec1", Args: []any{"!value pk.Const"}}}
+		cases = append(cases, &BCase{ID: fmt.Sprintf("alias-table-changes-between-builds/%d", ri), Cfg: cfg, Sessions: []BSession{{Ops: []ProbeOp{op("get", "sut"), op("get", "val"), op("getter", "GetVal"), op("param", "pf"), op("get", "dep")}}}})
+	}
+	// a pattern that fails at a later chunk, then (after the override) the same and other multi-chunk patterns
+	{
+		cfg := c02base(false)
+		cfg.Params = append(cfg.Params, Param{"pTodo", `%todo("later")%`}, Param{"pUrl", "https://%pStr%/%pTodo%"}, Param{"pPort", "p%pInt%"})
+		cfg.Services = append(cfg.Services,
+			Service{Name: "sut", Constructor: P("pk.New"), Args: []any{"a-%pStr%-%pTodo%-z", "b-%pInt%"}, Scope: P("non_shared")},
+			Service{Name: "other", Constructor: P("pk.New1"), Args: []any{"o-%pInt%-%pStr%"}, Fields: []KV{{"F1", "f%pPort%"}}, Scope: P("non_shared")})
+		ov := ProbeOp{Op: "overrideParam", Name: "pTodo", Val: &ProbeSpec{Kind: "value", V: "now"}}
+		cases = append(cases, &BCase{ID: "error/pattern-fails-then-other-patterns", Cfg: cfg, Sessions: []BSession{
+			{Ops: []ProbeOp{op("get", "sut"), op("get", "other"), op("param", "pUrl"), op("param", "pPort"), op("get", "other"), ov, op("get", "sut"), op("param", "pUrl"), op("get", "other")}, Env: c02env},
+			{Ops: []ProbeOp{op("param", "pUrl"), op("param", "pPort"), op("param", "pUrl"), op("param", "pMulti"), ov, op("param", "pPort"), op("param", "pUrl")}, Env: c02env},
+		}})
+	}
 	// the todo marker (and its withdrawal) arriving from a later file
 	{
 		cfg := c02base(false)
